@@ -50,45 +50,81 @@ def arith(expr):
     return eval(e.replace("_", ""))
 
 
+def inline_lets(expr, scope_text, depth=0):
+    """replace identifiers bound by `let <id> = <boolean expression over opts>;` in scope_text by their definition"""
+    if depth > 4:
+        return expr
+    def repl(m):
+        name = m.group(0)
+        if name in ("true", "false", "opts"):
+            return name
+        d = re.search(r"let\s+" + re.escape(name) + r"\s*(?::\s*bool\s*)?=\s*([^;]+);", scope_text)
+        if not d:
+            return name
+        return "(" + inline_lets(d.group(1).strip(), scope_text, depth + 1) + ")"
+    # identifiers that are not part of `opts.field`
+    return re.sub(r"(?<![\w.])[A-Za-z_]\w*(?!\s*\.)(?![\w(])", repl, expr)
+
+
 def bool_expr(rust, fields):
-    """`opts.force_create || opts.seed_output`, `!opts.force_create && !opts.seed_output`, `true`
+    """`opts.force_create || opts.seed_output`, `!opts.force_create && !(a || b)`, `true`
     -> Gallina bool term over record projections given in fields (name -> coq projection)."""
     toks = re.findall(r"opts\.\w+|\|\||&&|!|\(|\)|true|false", rust)
     if "".join(toks) != re.sub(r"\s+", "", rust):
         raise TranslateError(f"unsupported boolean expression: {rust}")
-    out = []
-    for t in toks:
-        if t == "||":
-            out.append("||")
-        elif t == "&&":
-            out.append("&&")
-        elif t == "!":
-            out.append("negb")
-        elif t in ("(", ")", "true", "false"):
-            out.append(t)
-        else:
-            f = t[5:]
-            if f not in fields:
-                raise TranslateError(f"unknown option field {f}")
-            out.append("(" + fields[f] + " o)")
-    # negb binds tighter: wrap operand
-    res = []
-    i = 0
-    while i < len(out):
-        if out[i] == "negb":
-            res.append("(negb " + out[i + 1] + ")")
-            i += 2
-        else:
-            res.append(out[i])
-            i += 1
-    return " ".join(res)
+    pos = [0]
+
+    def peek():
+        return toks[pos[0]] if pos[0] < len(toks) else None
+
+    def take():
+        t = peek()
+        pos[0] += 1
+        return t
+
+    def atom():
+        t = take()
+        if t == "!":
+            return "(negb " + atom() + ")"
+        if t == "(":
+            e = disj()
+            if take() != ")":
+                raise TranslateError(f"unbalanced parentheses in {rust}")
+            return "(" + e + ")"
+        if t in ("true", "false"):
+            return t
+        if t is None or not t.startswith("opts."):
+            raise TranslateError(f"unsupported boolean expression: {rust}")
+        f = t[5:]
+        if f not in fields:
+            raise TranslateError(f"unknown option field {f}")
+        return "(" + fields[f] + " o)"
+
+    def conj():
+        e = atom()
+        while peek() == "&&":
+            take()
+            e = e + " && " + atom()
+        return e
+
+    def disj():
+        e = conj()
+        while peek() == "||":
+            take()
+            e = "(" + e + ") || (" + conj() + ")" if "&&" in e else e + " || " + conj()
+        return e
+
+    e = disj()
+    if pos[0] != len(toks):
+        raise TranslateError(f"unsupported boolean expression: {rust}")
+    return e
 
 
-def open_options(block, fields):
+def open_options(block, fields, scope_text=""):
     """parse `.write(true).read(expr).create(expr)...` chain -> dict flag -> gallina"""
     flags = {}
     for m in re.finditer(r"\.(write|read|create|truncate|create_new|append)\(([^()]*(?:\([^()]*\))?[^()]*)\)", block):
-        flags[m.group(1)] = bool_expr(m.group(2).strip(), fields)
+        flags[m.group(1)] = bool_expr(inline_lets(m.group(2).strip(), scope_text), fields)
     return flags
 
 
@@ -281,7 +317,7 @@ def gen(snapshot=None):
         blk = need(r"let mut output_file = tokio::fs::OpenOptions::new\(\)(.*?)\.open\(&opts\.output\)", cl,
                    "clone output OpenOptions").group(1)
         cfields = {"force_create": "c_force_create", "seed_output": "c_seed_output", "verify_output": "c_verify_output"}
-        fl = open_options(blk, cfields)
+        fl = open_options(blk, cfields, cl)
         w("")
         w("Record clone_flags := { c_force_create : bool; c_seed_output : bool; c_verify_output : bool }.")
         for k in ("write", "read", "create", "create_new", "truncate", "append"):
@@ -289,7 +325,7 @@ def gen(snapshot=None):
         cm = src("src/compress_cmd.rs")
         blk = need(r"let mut output_file = std::fs::OpenOptions::new\(\)(.*?)\.open\(&opts\.output\)", cm,
                    "compress output OpenOptions").group(1)
-        fl = open_options(blk, {"force_create": "z_force_create"})
+        fl = open_options(blk, {"force_create": "z_force_create"}, cm)
         w("Record compress_flags := { z_force_create : bool }.")
         for k in ("write", "read", "create", "create_new", "truncate", "append"):
             w(f"Definition compress_open_{k} (o : compress_flags) : bool := {fl.get(k, 'false')}.")
